@@ -6,6 +6,8 @@ Schedules: preemption-bounded exploration of real threads colliding on shared ca
 """
 from __future__ import annotations
 
+import hashlib
+import io
 import itertools
 import os
 
@@ -643,6 +645,96 @@ def _pattern_lookup_histories(depth):
     acc.outcome("pattern-lookup")
     acc.sample({"pattern_lookup_alphabet": alpha, "depth": depth})
     return acc
+
+
+# ---- the tzdb source object itself: read-only questions in every order ---------------------------------------------------
+
+_SRC_DATA = {}
+
+
+def _source_bytes():
+    if "d" not in _SRC_DATA:
+        import pyoda_time as _pt
+        with open(os.path.join(os.path.dirname(_pt.__file__), "time_zones", "Tzdb.nzd"), "rb") as f:
+            _SRC_DATA["d"] = f.read()
+    return _SRC_DATA["d"]
+
+
+def _source_alphabet():
+    known, alias, unknown = "Europe/London", "Europe/Jersey", "Nowhere/Atlantis"
+    ids = (known, alias, unknown)
+
+    def h(it):
+        return hashlib.sha1(repr(list(it)).encode()).hexdigest()[:12]
+    ops = []
+    for zid in ids:
+        ops.append(("aliases[%s]" % zid, lambda s, zid=zid: list(s.aliases[zid])))
+        ops.append(("aliases.get(%s)" % zid, lambda s, zid=zid: (lambda v: None if v is None else list(v))(s.aliases.get(zid))))
+        ops.append(("%s in aliases" % zid, lambda s, zid=zid: zid in s.aliases))
+        ops.append(("canonical_id_map[%s]" % zid, lambda s, zid=zid: s.canonical_id_map[zid]))
+        ops.append(("canonical_id_map.get(%s)" % zid, lambda s, zid=zid: s.canonical_id_map.get(zid)))
+        ops.append(("for_id(%s)" % zid, lambda s, zid=zid: (lambda z: (z.id, z.get_utc_offset(mk_instant(1_720_000_000 * 10**9)).seconds))(s.for_id(zid))))
+        ops.append(("tzdb_to_windows_ids.get(%s)" % zid, lambda s, zid=zid: s.tzdb_to_windows_ids.get(zid)))
+    ops.append(("len+keys(aliases)", lambda s: (len(s.aliases), h(s.aliases), h(sorted(map(repr, s.aliases.items()))))))
+    ops.append(("len+keys(canonical_id_map)", lambda s: (len(s.canonical_id_map), h(s.canonical_id_map.items()))))
+    ops.append(("get_ids", lambda s: h(s.get_ids())))
+    ops.append(("validate", lambda s: s.validate()))
+    ops.append(("version_id", lambda s: (s.version_id, s.tzdb_version)))
+    ops.append(("windows_to_tzdb_ids", lambda s: (len(s.windows_to_tzdb_ids), h(sorted(s.windows_to_tzdb_ids.items())), s.windows_to_tzdb_ids.get("GMT Standard Time"))))
+    ops.append(("zone_locations", lambda s: None if s.zone_locations is None else (len(s.zone_locations), s.zone_locations[0].zone_id, len(s.zone_1970_locations or ()))))
+    return ops
+
+
+def _source_answer(fn, src):
+    try:
+        return ("ok", fn(src))
+    except Exception as e:  # noqa: BLE001
+        # a missing key answers with KeyError raised at the subscript itself, i.e. in this file: every exception is an
+        # answer here; the fresh answers are listed in the evidence outcomes so that a harness slip would be visible
+        return ("raises", type(e).__name__)
+
+
+def _source_histories(arg):
+    """every history of <= depth read-only questions to ONE TzdbDateTimeZoneSource built from the bundled bytes; each answer
+    must equal the answer a fresh source gives when asked that question first"""
+    first_idx, depth = arg
+    from pyoda_time.time_zones._tzdb_date_time_zone_source import TzdbDateTimeZoneSource as _Src
+    acc = Acc()
+    ops = _source_alphabet()
+    data = _source_bytes()
+    fresh = {}
+    for name, fn in ops:
+        fresh[name] = _source_answer(fn, _Src.from_stream(io.BytesIO(data)))
+    n = 0
+    for d in range(1, depth + 1):
+        for rest in itertools.product(range(len(ops)), repeat=d - 1):
+            hist = (first_idx,) + rest
+            src = _Src.from_stream(io.BytesIO(data))
+            n += 1
+            acc.count(evaluations=1)
+            for i, k in enumerate(hist):
+                name, fn = ops[k]
+                acc.count(transitions=1)
+                got = _source_answer(fn, src)
+                if got != fresh[name]:
+                    acc.violation("C13/tzdb-source/history-dependent/%s" % name,
+                                  "after %r the question %s is answered %r; a fresh source answers %r" % ([ops[j][0] for j in hist[:i]], name, got, fresh[name]),
+                                  {"kind": "tzdb-source", "history": [ops[j][0] for j in hist[:i + 1]]},
+                                  _py_source([ops[j][0] for j in hist[:i + 1]]))
+                    break
+    acc.count(states=n, nontrivial=n)
+    acc.outcome("tzdb-source:%d questions" % len(ops))
+    if first_idx == 0:
+        for name, _ in ops:
+            acc.outcome("tzdb-source fresh answer %s => %s" % (name, fresh[name][0] if fresh[name][0] == "ok" else fresh[name]))
+        acc.sample({"tzdb_source_alphabet": [o[0] for o in ops], "depth": depth})
+    return acc
+
+
+def _py_source(names):
+    return ("# history of read-only questions to one TzdbDateTimeZoneSource; the last answer differs from a fresh source's\n"
+            "def test_source_history():\n    import vf.checks.c13 as c\n    assert not c.replay({'case': {'kind': 'tzdb-source', 'history': %r}})\n" % (names,))
+
 
 
 def _calendar_routes():
@@ -1404,6 +1496,9 @@ def run(ctx):
     ctx.merge_part("hist_provider", _provider_histories(3 if tier == "quick" else 4))
     ctx.merge_part("hist_provider_custom_source", _provider_histories_custom(3 if tier == "quick" else 4))
     ctx.merge_part("hist_fixed_zones", _fixed_zone_histories(2 if tier == "quick" else 3))
+    nops = len(_source_alphabet())
+    for acc in pmap(_source_histories, [(k, 2 if tier == "quick" else 3) for k in range(nops)]):
+        ctx.merge_part("hist_tzdb_source", acc)
     ctx.merge_part("hist_pattern_lookup", _pattern_lookup_histories(2 if tier == "quick" else 3))
     acc = Acc()
     _calendar_histories(acc)
@@ -1435,6 +1530,17 @@ def replay(rec):
         names = [n for n, _ in _harness_table("quick")]
         if case["harness"] in names:
             acc.merge(_run_harness(names.index(case["harness"])))
+    if k == "tzdb-source":
+        from pyoda_time.time_zones._tzdb_date_time_zone_source import TzdbDateTimeZoneSource as _Src
+        ops = dict(_source_alphabet())
+        src = _Src.from_stream(io.BytesIO(_source_bytes()))
+        got = None
+        for name in case["history"]:
+            got = _source_answer(ops[name], src)
+        last = case["history"][-1]
+        fresh = _source_answer(ops[last], _Src.from_stream(io.BytesIO(_source_bytes())))
+        if got != fresh:
+            acc.violation("C13/tzdb-source/history-dependent/%s" % last, "after %r: %r, fresh source: %r" % (case["history"][:-1], got, fresh))
     for kk, v in acc.violations.items():
         print(kk, v[0])
     return bool(acc.violations)
